@@ -21,6 +21,8 @@ def main():
     chk = lib.Check(a.prop, tier, seed)
     try:
         mod.run(chk, replay=a.replay)
+    except lib.HarnessHang as ex:
+        chk.violation("the implementation %s" % ex.how, {"suite": ex.suite, "case": ex.case, "failure": ex.how}, True)
     except Exception as ex:  # machinery failure: the property is not shown to hold
         import traceback
         tb = traceback.format_exc()
